@@ -378,6 +378,32 @@ class Interp:
 
                     if how == "service":
                         await owner.start_service_task(child2, f"svc{ctid}")
+                    elif sum(map(ord, str(ctid))) % 2:
+                        # the task fails at its end and the factory's exception handler is consulted - in that task, after the task's own
+                        # context has been left: what is current there is again what the task inherited from whoever spawned it
+                        in_handler: list[Any] = []
+
+                        def handler(exc: Exception) -> bool:
+                            try:
+                                in_handler.append(current_context())
+                            except Exception as e:
+                                in_handler.append(e)
+                            return True
+
+                        async def child3() -> None:
+                            await child2()
+                            raise FactoryFailed("the task failed at its end")
+
+                        factory = await owner.start_background_task_factory(exception_handler=handler)
+                        handle = await factory.start_task(child3)
+                        self.check(tid, stack, "after-starting-task")
+                        await done.wait()
+                        await handle.wait_finished()
+                        self.inc("exception_handlers_that_observed_the_current_context")
+                        if len(in_handler) != 1 or in_handler[0] is not owner:
+                            self.bad("current-wrong[exception-handler]", f"task {ctid}, started through a task factory from {self.name(owner, stack)}, failed; inside the "
+                                                                         f"factory's exception handler the current context was "
+                                                                         f"{[self.name(c, stack) if not isinstance(c, Exception) else repr(c) for c in in_handler]}")
                     else:
                         factory = await owner.start_background_task_factory()
                         await factory.start_task(child2)
@@ -420,6 +446,9 @@ class Interp:
             try:
                 await self.run(i, t["prog"], stack, i)
             except Exception as e:
+                import traceback as _tb
+
+                self.log.append("".join(_tb.format_exception(e))[-1500:])
                 self.bad("current-program-crashed", f"task {i} crashed: {describe_exc(e)}")
             self.check(i, stack, "task-end")
 
